@@ -45,6 +45,7 @@ def run_property(pid, tier):
     checker_cmds = []
     smt_ms = 0
     canary_ok = True
+    undecided_units = set()
     # ---------------------------------------------------------------- Verus units
     for unit in cfg.get("verus", []):
         udir = os.path.join(C.VERIF, "units", unit)
@@ -61,6 +62,7 @@ def run_property(pid, tier):
                 undecided.append("unit %s unstable under rlimit change: %s %s" % (unit, [f["id"] for f in r2.failed], r2.undecided))
         for u in r.undecided:
             undecided.append("unit %s: %s" % (unit, u))
+            undecided_units.add(unit)
         # obligations that count for THIS property: clauses tagged with it, the implicit-safety groups of the functions that
         # carry such a clause (all functions when the unit has no clause tagged for this property), template lemmas tagged with it
         tagged_fns = {o["fn"] for o in r.obligations if o["kind"] == "tagged" and o["id"].startswith(pid + ".")}
@@ -153,18 +155,24 @@ def run_property(pid, tier):
             elif res["status"] == "undecided":
                 undecided.append("structural %s: %s" % (res["id"], res.get("message")))
     # ---------------------------------------------------------------- thorough tier: the witness searches run proactively
+    # ... and, in every tier, for a unit the verifier could not decide (the code left the verifier's dialect, an anchor was lost): the
+    # bounded native search of that unit stands in (labelled bounded; finding nothing leaves the property UNDECIDED, exit 2)
     native_search = []
+    wunits = []
     if tier == "thorough":
         wunits = [u for u in cfg.get("verus", []) if u in P.WITNESS]
         if cfg.get("fallback_witness") in P.WITNESS:
             wunits.append(cfg["fallback_witness"])
+    wunits += [u for u in sorted(undecided_units) if u in P.WITNESS and u not in wunits]
+    if wunits:
         for u in wunits:
             w = P.WITNESS[u]
             try:
                 wits, wlog, ok, stats, cmd = W.run_witness(pid, w["target"], os.path.join(C.VERIF, w["src"]))
             except Exception as e:
                 wits, wlog, ok, stats, cmd = [], repr(e), False, {}, ""
-            native_search.append({"unit": u, "ran": ok, "evaluations": stats.get("evaluations"), "witnesses": len(wits)})
+            native_search.append({"unit": u, "ran": ok, "evaluations": stats.get("evaluations"), "witnesses": len(wits),
+                                  "reason": "stand-in for an undecided unit" if u in undecided_units else "thorough tier"})
             if not ok:
                 undecided.append("native search of unit %s did not run: %s" % (u, wlog[-300:].replace("\n", " | ")))
             already = {f["fn"] for f in failed}
